@@ -143,7 +143,34 @@ func allVarNodes(sc *gen.Script) []*gen.Var {
 func mutateNames(r *rng.R, sc *gen.Script) string {
 	vars := allVarNodes(sc)
 	for attempt := 0; attempt < 8; attempt++ {
-		switch r.Intn(13) {
+		switch r.Intn(16) {
+		case 13: // a type name that is almost one of the six
+			if len(sc.Vars) == 0 {
+				continue
+			}
+			d := sc.Vars[r.Intn(len(sc.Vars))]
+			d.Type = r.Pick("acount", "accounts", "monetry", "monetary_", "numbr", "nunber", "strng", "strings", "portio", "portions", "aset", "assets", "Account", "int")
+			return "mistyped-type-name"
+		case 14, 15: // a name declared twice, used (inside an origin) between the two declarations and nowhere else
+			name := "twice_" + itoa(r.Intn(3))
+			via := "via_" + name
+			first := &gen.VarDecl{Type: "account", Name: name}
+			user := &gen.VarDecl{Type: "string", Name: via, Origin: &gen.Call{Name: "meta", Args: []gen.Expr{gen.V(name), gen.S("k")}}}
+			second := &gen.VarDecl{Type: r.Pick("account", "string"), Name: name}
+			pos := r.Intn(len(sc.Vars) + 1)
+			nv := append([]*gen.VarDecl{}, sc.Vars[:pos]...)
+			nv = append(nv, first)
+			nv = append(nv, sc.Vars[pos:]...)
+			nv = append(nv, user)
+			if r.Bool() {
+				// the repeated declaration reads the first one in its own origin
+				second.Origin = &gen.Call{Name: "meta", Args: []gen.Expr{gen.V(name), gen.S("k2")}}
+				second.Type = "string"
+			}
+			nv = append(nv, second)
+			sc.Vars = nv
+			sc.Stmts = append(sc.Stmts, &gen.Call{Name: "set_tx_meta", Args: []gen.Expr{gen.S("via"), gen.V(via)}})
+			return "redeclared-after-a-use-in-an-origin"
 		case 10, 11: // an expression of any shape and typing, with uses at every depth, as a metadata value
 			fresh := ""
 			if r.Bool() {
@@ -406,6 +433,14 @@ func runC16(c *fw.Ctx) {
 				return
 			}
 			c.Eval()
+			// what an editor or the command line does with every diagnostic: render it
+			if !c.Guard("Diagnostic.Message", in2, func() {
+				for _, d := range res2.Diagnostics {
+					_ = d.Kind.Message()
+				}
+			}) {
+				return
+			}
 			decls, uses := collectNames(cs2.Script, pr2)
 			want, open := expectedNames(decls, uses)
 			got := actualNames(res2.Diagnostics, open)
